@@ -15,6 +15,7 @@ import copy
 import importlib
 import itertools
 import math
+import warnings
 import sys
 
 from vlib import env, progs
@@ -87,7 +88,9 @@ def operand_exprs(idx):
     """operand kinds: effectful call t(k, v), plain name, constants"""
     name = "ab"[idx]
     out = [("call", ast.Call(func=ast.Name(id="t", ctx=ast.Load()), args=[ast.Constant(idx), ast.Name(id=name, ctx=ast.Load())], keywords=[])),
-           ("name", ast.Name(id=name, ctx=ast.Load()))]
+           ("name", ast.Name(id=name, ctx=ast.Load())),
+           # a module global that every effectful call t(..) REBINDS: evaluating it before or after a sibling call is observable
+           ("gname", ast.Name(id="G" + name.upper(), ctx=ast.Load()))]
     for c in CONSTS:
         out.append((f"const:{c!r}", ast.Constant(c)))
     return out
@@ -124,11 +127,15 @@ def run_module(mod, a, b):
 
     def t(k, v):
         log.append(k)
+        g["GA"] = g["GB"] = 2  # the "gname" operands change under every effectful call
         return v
 
-    g = {OPALIAS[0]: operator}
+    g = {OPALIAS[0]: operator, "GA": a, "GB": b}
     try:
-        exec(compile(mod, "<c15>", "exec"), g)
+        with warnings.catch_warnings():
+            warnings.simplefilter("ignore", SyntaxWarning)  # `1[2]` and the like are part of the alphabet
+            code = compile(mod, "<c15>", "exec")
+        exec(code, g)
         r = g["f"](t, a, b)
         out = ("ok", type(r).__name__, "nan" if isinstance(r, float) and math.isnan(r) else repr(r))
     except Exception as e:  # noqa
@@ -157,8 +164,8 @@ def part_a(args):
                 changed = ast.dump(before) != ast.dump(after)
                 if changed:
                     res.distinct_count += 1
-                need_a = any(k[0] in ("call", "name") for k in kinds[:1])
-                need_b = arity == 2 and kinds[1][0] in ("call", "name")
+                need_a = any(k[0] in ("call", "name", "gname") for k in kinds[:1])
+                need_b = arity == 2 and kinds[1][0] in ("call", "name", "gname")
                 for a in (VALUES if need_a else [None]):
                     for b in (VALUES if need_b else [None]):
                         r1 = run_module(before, a, b)
